@@ -11,6 +11,7 @@ from liquid import Markup
 from liquid.ast import BlockNode
 from liquid.ast import Node
 from liquid.builtin.expressions import parse_identifier
+from liquid.builtin.expressions import quote_identifier
 from liquid.parser import get_parser
 from liquid.tag import Tag
 from liquid.token import TOKEN_EOF
@@ -42,7 +43,7 @@ class CaptureNode(Node):
         self.block = block
 
     def __str__(self) -> str:
-        return f"{{% capture {self.name} %}}{self.block}{{% endcapture %}}"
+        return f"{{% capture {quote_identifier(self.name)} %}}{self.block}{{% endcapture %}}"
 
     def _assign(self, context: RenderContext, buf: StringIO) -> None:
         if context.autoescape:
